@@ -2,7 +2,7 @@
 
 Decides: (R13.1) the SUB backend's peer_connected snapshots the subscription set under its lock into SUBSCRIBE
 messages and sends each of them to the new peer before registering it; a failed announcement drops the peer
-without panicking; registration overwrites a stale entry with the same identity; (R13.2) subscribe/unsubscribe
+without panicking and without registering it; registration overwrites a stale entry with the same identity; (R13.2) subscribe/unsubscribe
 change the set *before* broadcasting the matching SUBSCRIBE/UNSUBSCRIBE message, and the broadcast walks the
 whole peer table; (R13.3) inside the broadcast a failed send to one peer does not end the loop; (R13.4) no
 suspension point lies between taking the snapshot and making the new peer visible to subscribe() (the
@@ -126,11 +126,19 @@ def run(ctx, f, rep):
             tab = [(i, e) for i, e in pathq.calls(p, "upsert_async", "upsert_sync", "insert_async", "insert_sync") if "scc::" in e.name]
             if not tab:
                 # not registered: must be because an announcement failed
-                failed = any(e[0] == "discr" and c == ("eq", 1) and pathq.mentions_call(e[1], lambda y: short(y[1]) == "poll" and "sink::Send" in y[1]) is not None for (e, c, _, _) in p.conds)
+                failed = any(e[0] == "discr" and c == ("eq", 1) and e[1][0] in ("field", "downcast") and
+                             pathq.mentions_call(e[1], lambda y: short(y[1]) == "poll" and "sink::Send" in y[1]) is not None for (e, c, _, _) in p.conds)
                 rep.check(failed, "R13.1", "R13.1|unregistered-only-after-failed-announce", "a new peer is left unregistered only when announcing the subscriptions to it failed", co.loc())
                 continue
             nreg += 1
             ti, tev = tab[0]
+            # ... and never after one: a connection that already failed while it was being told the subscriptions is not registered
+            # (the Result inside Poll::Ready - field/downcast of the poll - decided Err; `discr(poll) == 1` alone is Pending)
+            failed_before = any(e[0] == "discr" and c == ("eq", 1) and e[1][0] in ("field", "downcast") and
+                                pathq.mentions_call(e[1], lambda y: short(y[1]) == "poll" and "sink::Send" in y[1]) is not None
+                                for (e, c, _, _) in p.conds[:tev.ncond])
+            rep.check(not failed_before, "R13.1", "R13.1|failed-announce-not-registered",
+                      "a peer whose connection failed during the announcement is dropped, not registered (a dead entry would make every later subscribe() fail)", co.loc(tev.bb))
             locks = [(i, ev) for i, ev in enumerate(p.events[:ti]) if is_subs_lock(ev)]
             coll = [(i, ev) for i, ev in pathq.calls(p, "collect", upto=ti)]
             snap = bool(locks) and bool(coll) and pathq.mentions_call(coll[-1][1].args[0], lambda y: short(y[1]) == "map") is not None and \
